@@ -209,3 +209,58 @@ Definition uncached_loads_each_statement : Prop :=
     length (k_clients (conc_run reuse false n sched)) = n /\
     Forall (fun cl => exists i, cc_got cl = Some i) (k_clients (conc_run reuse false n sched)) /\
     NoDup (map cc_got (k_clients (conc_run reuse false n sched))).
+
+(** ** 6. An instance in use is never replaced (all schedules of N clients
+    that open, use and release one location, any TTL, any clock) *)
+
+(** client [j] holds instance [i]: it is between its Open and its Release *)
+Definition lholds (k : lsys) (j i : nat) : Prop :=
+  exists ei, nth_error (l_clients k) j = Some (LHolding ei i).
+
+(** the protocol of the repaired code, with pending entries in the map (NewSystem forces CachePending) *)
+Definition lrepaired (cf : lconf) : Prop := lc_count cf = true /\ lcached cf = true.
+
+(** While a client holds an instance, the cache map holds that very instance
+    (it was neither dropped nor replaced), and whatever happens next - any
+    step of any client, a tick of any size, a change of !cacheTTL - no client
+    holds a different one afterwards. *)
+Definition in_use_instance_never_replaced_statement : Prop :=
+  forall cf n sched j i, lrepaired cf ->
+    lholds (lrun cf n sched) j i ->
+    lslot_inst (lrun cf n sched) = Some i /\
+    forall ev j' i', lholds (lstep cf (lrun cf n sched) ev) j' i' -> i' = i.
+
+Definition overlapping_requests_share_one_instance_statement : Prop :=
+  forall cf n sched j1 i1 j2 i2, lrepaired cf ->
+    lholds (lrun cf n sched) j1 i1 -> lholds (lrun cf n sched) j2 i2 -> i1 = i2.
+
+(** a write through a held instance is acknowledged: it is in storage and in that instance *)
+Definition held_write_acknowledged_statement : Prop :=
+  forall cf k j i, lholds k j i ->
+    let k' := lstep cf k (LWrite j) in
+    l_store k' = length (l_store k) :: l_store k /\ lmem_of k' i = length (l_store k) :: lmem_of k i /\
+    l_clients k' = l_clients k.
+
+(** Every write acknowledged so far stays in storage, and it is in the
+    instance held by ANY client at ANY later moment - the instance the cache
+    kept (shared) or the one a later Open loaded from storage. *)
+Definition acknowledged_write_visible_to_later_open_statement : Prop :=
+  forall cf n sched later w, lrepaired cf ->
+    In w (l_store (lrun cf n sched)) ->
+    let k := lrun cf n (sched ++ later) in
+    In w (l_store k) /\ forall j i, lholds k j i -> In w (lmem_of k i).
+
+(** more precisely: a held instance contains exactly the acknowledged writes, and so did every read *)
+Definition held_instance_is_current_statement : Prop :=
+  forall cf n sched, lrepaired cf ->
+    let k := lrun cf n sched in
+    (forall j i, lholds k j i -> lmem_of k i = l_store k) /\
+    (forall j seen acked, In (j, seen, acked) (l_reads k) -> seen = acked).
+
+(** Pending is exactly the number of clients between their Open and their
+    Release - whether their Open succeeded or failed: nothing is left behind,
+    so an entry nobody uses can expire. *)
+Definition pending_counts_users_statement : Prop :=
+  forall cf n sched ei, lrepaired cf ->
+    l_slot (lrun cf n sched) = Some ei ->
+    le_pending (lentry_at (lrun cf n sched) ei) = lusers (l_clients (lrun cf n sched)).
